@@ -1389,9 +1389,13 @@ class Node:
             data_id = self._tree.calc_data_id(data)
         if data_id is not None:  # may be falsy, e.g. `0` or `""`
             assert match is None
-            return [
-                n for n in self.iterator(add_self=add_self) if n._data_id == data_id
-            ]
+            res = []
+            for n in self.iterator(add_self=add_self):
+                if n._data_id == data_id:
+                    res.append(n)
+                    if max_results and len(res) >= max_results:
+                        break
+            return res
         return [
             n for n in self._search(match, add_self=add_self, max_results=max_results)
         ]
